@@ -1142,7 +1142,13 @@ def _execute(ctx):
             if scn["sig_ops"]:
                 await guarded(run_ops(scn["sig_ops"], 0, True, ev.when))
 
-        sources = [event.FifoQueueEventSource(events=evs) for evs in bar_list]
+        if scn.get("merged") and npairs > 1:
+            # one bar source carrying several pairs (several events with the same datetime from one source)
+            allb = sorted((ev for evs in bar_list for ev in evs), key=lambda ev: (ev.when, ev._pi))
+            sources = [event.FifoQueueEventSource(events=allb)]
+            ctx.probes["merged_bar_source"] += 1
+        else:
+            sources = [event.FifoQueueEventSource(events=evs) for evs in bar_list]
         if scn["sub_first"]:
             for p in pairs:
                 e.subscribe_to_bar_events(p, on_bar)
